@@ -343,4 +343,15 @@ theorem route7 (T : Tables) (x : Locale) (h : x.inv = true) (k : Nat) (hk : 7 ‚â
     simpa [LangId.intoParts, LangId.variantList] using e0
   rw [this]
 
+/-- routes 8 and 9 of the `route` request: emptying the variant list with `set_variants(&[])` gives the value that
+    `clear_variants()` gives (8), and that value is what parsing its own text gives (9) ‚Äî in particular it is not the second
+    representation `Some([])` -/
+theorem route8 (x : Locale) : ({ x with id := x.id.setVariants [] } : Locale) = { x with id := x.id.clearVariants } := rfl
+
+theorem route9 (x : Locale) (h : x.inv = true) :
+    Locale.fromBytes (Locale.display { x with id := x.id.setVariants [] }) = .ok { x with id := x.id.setVariants [] } := by
+  apply UL.Props.C05.locale_roundtrip
+  simp only [Locale.inv, Bool.and_eq_true] at h ‚ä¢
+  exact ‚ü®UL.Reach.LangId.inv_clearVariants h.1, h.2‚ü©
+
 end UL.Props.C12
